@@ -19,10 +19,12 @@ import (
 	"math/rand"
 	"os"
 	"path/filepath"
+	"reflect"
 	"sort"
 	"strings"
 	"testing"
 	"time"
+	"unsafe"
 
 	"cosmossdk.io/log"
 	sdkmath "cosmossdk.io/math"
@@ -39,18 +41,32 @@ import (
 	"github.com/palomachain/paloma/v2/x/skyway"
 	"github.com/palomachain/paloma/v2/x/skyway/keeper"
 	"github.com/palomachain/paloma/v2/x/skyway/types"
+	tokenfactorytypes "github.com/palomachain/paloma/v2/x/tokenfactory/types"
 	treasurytypes "github.com/palomachain/paloma/v2/x/treasury/types"
 	valsettypes "github.com/palomachain/paloma/v2/x/valset/types"
 )
 
 var chains = []string{"test-chain", "test-chain-2"}
-var denoms = []string{"ugrain", "utokb", "utokc"}
+
+// denoms[2] is a token-factory denom ("factory/<user 0>/utokc", filled in by setup) so that the
+// token-admin path msgServer.SetERC20ToTokenDenom can be driven for it.
+var denoms = []string{"ugrain", "utokb", ""}
+
+// The model numbers chains and denoms by the byte order of the DenomToERC20 store keys
+// (prefix ++ chain ++ denom, no separator): "test-chain-2…" sorts before "test-chain" ++ denom,
+// "factory/…" before "ugrain" before "utokb".  setup() checks this numbering against the order
+// GetAllERC20ToDenoms really returns.
+var chainRank = []int{1, 0}
+var denomRank = []int{1, 2, 0}
+var denomByRank = []int{2, 0, 1}
 
 // contract index order = byte order of the addresses (the model orders store keys by index)
 var contracts = []string{
 	"0x0bc529c00C6401aEF6D220BE8C6Ea1667F6Ad93e",
 	"0x1111111111111111111111111111111111111111",
 	"0x2222222222222222222222222222222222222222",
+	"0x3333333333333333333333333333333333333333",
+	"0x4444444444444444444444444444444444444444",
 }
 
 const nUsers = 3
@@ -59,22 +75,44 @@ const ethSender = "0x8888888888888888888888888888888888888888"
 
 var errInjected = errors.New("verif: injected collaborator fault")
 
+const panicInjected = "verif: injected collaborator panic"
+
 // ---- fault proxies ----
+// The k-th fallible collaborator call of an operation fails: by returning an error, or (pan) by
+// panicking.
 type faultCtl struct {
 	calls  int
 	failAt int
+	pan    bool
 	fired  string
 }
 
-func (f *faultCtl) arm(k int) { f.calls, f.failAt, f.fired = 0, k, "" }
+func (f *faultCtl) arm(k int, pan bool) { f.calls, f.failAt, f.pan, f.fired = 0, k, pan, "" }
 func (f *faultCtl) hit(name string) error {
 	n := f.calls
 	f.calls++
 	if n == f.failAt {
 		f.fired = name
+		if f.pan {
+			panic(panicInjected)
+		}
 		return errInjected
 	}
 	return nil
+}
+
+// token-factory collaborator of msgServer.SetERC20ToTokenDenom: user 0 administers every factory
+// denom (who administers a denom is C16's)
+type tfStub struct{ admin string }
+
+func (t tfStub) GetAuthorityMetadata(ctx context.Context, denom string) (tokenfactorytypes.DenomAuthorityMetadata, error) {
+	return tokenfactorytypes.DenomAuthorityMetadata{Admin: t.admin}, nil
+}
+
+// setUnexported sets an unexported field of the (addressable) keeper copy the harness owns.
+func setUnexported(k *keeper.Keeper, field string, v any) {
+	f := reflect.ValueOf(k).Elem().FieldByName(field)
+	reflect.NewAt(f.Type(), unsafe.Pointer(f.UnsafeAddr())).Elem().Set(reflect.ValueOf(v))
 }
 
 type bankProxy struct {
@@ -150,11 +188,18 @@ type recHandler struct {
 	}
 	called bool
 	err    error
+	log    []handled // every call that returned (a panicking call does not return)
+}
+
+type handled struct {
+	claim types.EthereumClaim
+	err   error
 }
 
 func (r *recHandler) Handle(ctx context.Context, att types.Attestation, claim types.EthereumClaim) error {
 	r.called = true
 	r.err = r.inner.Handle(ctx, att, claim)
+	r.log = append(r.log, handled{claim, r.err})
 	return r.err
 }
 
@@ -162,9 +207,27 @@ func (r *recHandler) Handle(ctx context.Context, att types.Attestation, claim ty
 type entry struct{ C, D, K int }
 
 type config struct {
-	Table []entry  `json:"table"` // (chain, denom, contract) mappings besides the preset (0,0,0)
-	Taxes []string `json:"taxes"` // per denom, "" = none
-	Funds []string `json:"funds"` // per user*denom
+	Table  []entry  `json:"table"`            // (chain, denom, contract) mappings besides the preset (0,0,0)
+	Taxes  []string `json:"taxes"`            // per denom, "" = none
+	Funds  []string `json:"funds"`            // per user*denom
+	Limits []string `json:"limits,omitempty"` // per denom transfer limit (daily), "" = none
+}
+
+// evSpec is an observed claim handed to the end-blocker's tally (voted by all five validators)
+type evSpec struct {
+	Kind  string `json:"kind"` // "exe" | "dep"
+	C     int    `json:"c"`
+	K     int    `json:"k"`
+	Nonce uint64 `json:"nonce,omitempty"` // batch nonce
+	Eth   uint64 `json:"eth,omitempty"`
+	R     int    `json:"r,omitempty"`
+	Amt   string `json:"amt,omitempty"`
+}
+
+type estSpec struct {
+	K     int    `json:"k"`
+	Nonce uint64 `json:"nonce"`
+	Est   uint64 `json:"est"`
 }
 
 type env struct {
@@ -179,8 +242,15 @@ type env struct {
 	users []sdk.AccAddress
 	mod   sdk.AccAddress
 	dist  sdk.AccAddress
-	table []entry // in the store iteration order createBatch uses
 	t0    int64
+	// the whole end-blocker: chains it tallies (in its order), claims voted but not yet observed,
+	// estimates submitted but not yet elected
+	active   []int
+	skyNonce []uint64 // next claim nonce per chain
+	lastEth  []uint64
+	queue    [][]evSpec
+	pendEst  []estSpec
+	compass  []string // id of the compass deployment the tally accepts claims from, per chain
 }
 
 func mustNoErr(t *testing.T, err error) {
@@ -194,6 +264,12 @@ func setup(t *testing.T, cfg config) *env {
 	in, c := keeper.SetupFiveValChain(t)
 	e := &env{in: in, f: &faultCtl{failAt: -1}}
 	ctx := sdk.UnwrapSDKContext(c).WithLogger(log.NewNopLogger())
+	for i := 0; i < nUsers; i++ {
+		b := make([]byte, 20)
+		b[0], b[1], b[19] = 0xC0, 0x01, byte(i+1)
+		e.users = append(e.users, sdk.AccAddress(b))
+	}
+	denoms[2] = "factory/" + e.users[0].String() + "/utokc"
 	// second chain: registered with the EVM keeper, every validator has an account there, fresh snapshot
 	mustNoErr(t, in.EvmKeeper.AddSupportForNewChain(ctx, chains[1], 2, 123, "0x1234", big.NewInt(55)))
 	for i, addr := range keeper.ValAddrs {
@@ -214,8 +290,13 @@ func setup(t *testing.T, cfg config) *env {
 	_, err := in.ValsetKeeper.TriggerSnapshotBuild(ctx)
 	mustNoErr(t, err)
 	in.MetrixKeeper.UpdateUptime(ctx)
+	// both chains active (a deployed compass contract): the end-blocker tallies claims of active chains only
+	for i, ch := range chains {
+		mustNoErr(t, in.EvmKeeper.ActivateChainReferenceID(ctx, ch, &evmtypes.SmartContract{Id: 1}, fmt.Sprintf("0x%040d", i+1), []byte("compass-"+ch)))
+	}
 
 	e.k = keeper.VerifC01WithCollaborators(in.SkywayKeeper, bankProxy{in.BankKeeper, e.f}, evmProxy{in.SkywayKeeper.EVMKeeper, e.f})
+	setUnexported(&e.k, "tokenFactoryKeeper", types.TokenFactoryKeeper(tfStub{admin: e.users[0].String()}))
 	e.rec = &recHandler{inner: e.k.AttestationHandler}
 	e.k.AttestationHandler = e.rec
 	e.ms = keeper.NewMsgServerImpl(e.k)
@@ -223,17 +304,18 @@ func setup(t *testing.T, cfg config) *env {
 	e.cc = libcons.New(in.ValsetKeeper.GetCurrentSnapshot, in.Marshaler)
 	e.mod = in.AccountKeeper.GetModuleAddress(types.ModuleName)
 	e.dist = authtypes.NewModuleAddress(distrtypes.ModuleName)
-	for i := 0; i < nUsers; i++ {
-		b := make([]byte, 20)
-		b[0], b[1], b[19] = 0xC0, 0x01, byte(i+1)
-		e.users = append(e.users, sdk.AccAddress(b))
-	}
 	for _, en := range cfg.Table {
 		mustNoErr(t, e.gov(ctx, &types.SetERC20ToDenomProposal{Title: "t", Description: "d", ChainReferenceId: chains[en.C], Erc20: contracts[en.K], Denom: denoms[en.D]}))
 	}
 	for d, r := range cfg.Taxes {
 		if r != "" {
 			mustNoErr(t, e.gov(ctx, &types.SetBridgeTaxProposal{Title: "t", Description: "d", Rate: r, Token: denoms[d]}))
+		}
+	}
+	for d, l := range cfg.Limits {
+		if l != "" {
+			lim, _ := sdkmath.NewIntFromString(l)
+			mustNoErr(t, e.gov(ctx, &types.SetBridgeTransferLimitProposal{Title: "t", Description: "d", Token: denoms[d], Limit: lim, LimitPeriod: types.LimitPeriod_DAILY}))
 		}
 	}
 	for i, f := range cfg.Funds {
@@ -244,13 +326,31 @@ func setup(t *testing.T, cfg config) *env {
 			mustNoErr(t, in.BankKeeper.SendCoinsFromModuleToAccount(ctx, types.ModuleName, e.users[i/len(denoms)], cs))
 		}
 	}
-	all, err := e.k.GetAllERC20ToDenoms(ctx)
-	mustNoErr(t, err)
-	for _, m := range all {
-		e.table = append(e.table, entry{idx(chains, m.ChainReferenceId), idx(denoms, m.Denom), cidx(m.Erc20)})
-	}
 	e.root = ctx
 	e.t0 = ctx.BlockTime().Unix()
+	// the model's numbering of chains and denoms must be the store order of the DenomToERC20 index
+	rows := e.rows(ctx)
+	for i := 1; i < len(rows); i++ {
+		a, b := rows[i-1], rows[i]
+		if !(chainRank[a.C] < chainRank[b.C] || (chainRank[a.C] == chainRank[b.C] && denomRank[a.D] < denomRank[b.D])) {
+			t.Fatalf("GetAllERC20ToDenoms order %v is not the model's (chain rank, denom rank) order", rows)
+		}
+	}
+	for _, ch := range e.k.EVMKeeper.GetActiveChainNames(ctx) {
+		e.active = append(e.active, idx(chains, ch))
+	}
+	if len(e.active) != len(chains) {
+		t.Fatalf("active chains %v", e.active)
+	}
+	e.skyNonce = make([]uint64, len(chains))
+	e.lastEth = make([]uint64, len(chains))
+	e.queue = make([][]evSpec, len(chains))
+	for c, ch := range chains {
+		n, err := e.k.GetLastObservedSkywayNonce(ctx, ch)
+		mustNoErr(t, err)
+		e.skyNonce[c] = n + 1
+		e.compass = append(e.compass, e.k.GetLatestCompassID(ctx, ch))
+	}
 	return e
 }
 
@@ -272,13 +372,26 @@ func cidx(s string) int {
 	return -1
 }
 
-func (e *env) denomOf(c, k int) int {
-	for _, en := range e.table {
-		if en.C == c && en.K == k {
-			return en.D
-		}
+// rows of the DenomToERC20 index in store order (what createBatch iterates)
+func (e *env) rows(ctx sdk.Context) []entry {
+	all, err := e.k.GetAllERC20ToDenoms(ctx)
+	if err != nil {
+		panic(err)
 	}
-	return -1
+	var out []entry
+	for _, m := range all {
+		out = append(out, entry{idx(chains, m.ChainReferenceId), idx(denoms, m.Denom), cidx(m.Erc20)})
+	}
+	return out
+}
+
+// denomOf reads the ERC20ToDenom index: the denom a transfer of (chain, contract) is refunded / burned in
+func (e *env) denomOf(ctx sdk.Context, c, k int) int {
+	d, err := e.k.GetDenomOfERC20(ctx, chains[c], contractAddr(k))
+	if err != nil {
+		return -1
+	}
+	return idx(denoms, d)
 }
 
 // ---- snapshots of the real state ----
@@ -300,6 +413,7 @@ type snap struct {
 	escrow  []*big.Int
 	supply  []*big.Int
 	comm    []*big.Int
+	usage   []string // bridge transfer usage per denom (C15's bookkeeping; here only "a failed send leaves it alone")
 }
 
 func (e *env) userIdx(a sdk.AccAddress) int {
@@ -345,6 +459,12 @@ func (e *env) snapshot(ctx sdk.Context) snap {
 		s.escrow = append(s.escrow, e.in.BankKeeper.GetBalance(ctx, e.mod, d).Amount.BigInt())
 		s.supply = append(s.supply, e.in.BankKeeper.GetSupply(ctx, d).Amount.BigInt())
 		s.comm = append(s.comm, e.in.BankKeeper.GetBalance(ctx, e.dist, d).Amount.BigInt())
+		u, err := e.k.BridgeTransferUsage(ctx, d)
+		if err != nil || u == nil {
+			s.usage = append(s.usage, "-")
+		} else {
+			s.usage = append(s.usage, fmt.Sprintf("%s@%d", u.Total, u.StartBlockHeight))
+		}
 	}
 	return s
 }
@@ -389,21 +509,25 @@ func (s snap) equal(o snap) bool {
 
 // ---- operations ----
 type opSpec struct {
-	Kind  string `json:"kind"`
-	U     int    `json:"u,omitempty"`
-	C     int    `json:"c,omitempty"`
-	D     int    `json:"d,omitempty"`
-	K     int    `json:"k,omitempty"`
-	Amt   string `json:"amt,omitempty"`
-	ID    uint64 `json:"id,omitempty"`
-	Nonce uint64 `json:"nonce,omitempty"`
-	Max   int    `json:"max,omitempty"`
-	H     int64  `json:"h,omitempty"`
-	Now   int64  `json:"now,omitempty"` // seconds after the environment's start time
-	Eth   uint64 `json:"eth,omitempty"`
-	R     int    `json:"r,omitempty"`
-	Est   uint64 `json:"est,omitempty"`
-	Fault int    `json:"fault"` // index of the collaborator call of this op that fails; -1 none
+	Kind  string    `json:"kind"`
+	U     int       `json:"u,omitempty"`
+	C     int       `json:"c,omitempty"`
+	D     int       `json:"d,omitempty"`
+	K     int       `json:"k,omitempty"`
+	Amt   string    `json:"amt,omitempty"`
+	ID    uint64    `json:"id,omitempty"`
+	Nonce uint64    `json:"nonce,omitempty"`
+	Max   int       `json:"max,omitempty"`
+	H     int64     `json:"h,omitempty"`
+	Now   int64     `json:"now,omitempty"` // seconds after the environment's start time
+	Eth   uint64    `json:"eth,omitempty"`
+	R     int       `json:"r,omitempty"`
+	Est   uint64    `json:"est,omitempty"`
+	Evs   []evSpec  `json:"evs,omitempty"`   // fullblock: claims voted before this block
+	Ests  []estSpec `json:"ests,omitempty"`  // fullblock: estimates submitted before this block
+	Fault int       `json:"fault"`           // index of the collaborator call of this op that fails; -1 none
+	Panic bool      `json:"panic,omitempty"` // ... by panicking instead of returning an error
+	Quiet bool      `json:"quiet,omitempty"` // record only the outcome for the model (bulk steps of long histories)
 }
 
 func deliver(root sdk.Context, atomic bool, f func(ctx sdk.Context) error) (err error, panicked bool) {
@@ -424,7 +548,7 @@ func deliver(root sdk.Context, atomic bool, f func(ctx sdk.Context) error) (err 
 	return err, false
 }
 
-func md(a sdk.AccAddress) valsettypes.MsgMetadata {
+func meta(a sdk.AccAddress) valsettypes.MsgMetadata {
 	return valsettypes.MsgMetadata{Creator: a.String(), Signers: []string{a.String()}}
 }
 
@@ -437,23 +561,28 @@ func contractAddr(k int) types.EthAddress {
 }
 
 type hist struct {
-	e       *env
-	run     *emit.Run
-	cfg     config
-	ops     []opSpec
-	steps   []string
-	human   []string
-	acc     map[uint64]txo
-	refund  map[uint64]bool
-	burned  map[uint64]bool
-	dep     []*big.Int
-	exe     []*big.Int
-	s0      snap
-	okN     int
-	errN    int
-	faultN  int
-	viol    bool
-	lastTax *big.Int
+	e        *env
+	run      *emit.Run
+	cfg      config
+	ops      []opSpec
+	steps    []string
+	human    []string
+	acc      map[uint64]txo
+	accD     map[uint64]int // denom whose coins were locked when the transfer was accepted
+	refund   map[uint64]bool
+	burned   map[uint64]bool
+	dep      []*big.Int
+	exe      []*big.Int
+	s0       snap
+	tb0      []entry
+	okN      int
+	errN     int
+	faultN   int
+	probeN   int
+	viol     bool
+	panics   bool // the history injected a panic
+	skip     bool // do not hand the history to the model (panic faults on a tree without the fix)
+	thorough bool
 }
 
 func (h *hist) violate(id, what string) {
@@ -467,7 +596,7 @@ func (h *hist) violate(id, what string) {
 func zc(x *big.Int) string { return emit.Z(x) }
 
 func coqTx(t txo) string {
-	return emit.Pair(emit.ZU(t.id), emit.ZI(int64(t.sender)), emit.ZI(int64(t.chain)), emit.ZI(int64(t.contract)), zc(t.amount), zc(t.tax))
+	return emit.Pair(emit.ZU(t.id), emit.ZI(int64(t.sender)), emit.ZI(int64(chainRank[t.chain])), emit.ZI(int64(t.contract)), zc(t.amount), zc(t.tax))
 }
 
 func coqTxs(ts []txo) string {
@@ -485,81 +614,231 @@ func coqFault(k int) string {
 	return fmt.Sprintf("(fat %d)", k)
 }
 
+// per-denom lists go to the model in the model's denom numbering
+func byRank(xs []*big.Int) []*big.Int {
+	out := make([]*big.Int, len(xs))
+	for r, d := range denomByRank {
+		out[r] = xs[d]
+	}
+	return out
+}
+
+func balsByRank(xs []*big.Int) []*big.Int {
+	out := make([]*big.Int, 0, len(xs))
+	for u := 0; u < nUsers; u++ {
+		out = append(out, byRank(xs[u*len(denoms):(u+1)*len(denoms)])...)
+	}
+	return out
+}
+
 func (h *hist) coqObs(ok bool, s snap) string {
 	bs := make([]string, len(s.batches))
 	for i, b := range s.batches {
-		bs[i] = emit.Pair(emit.ZU(b.nonce), emit.ZI(int64(b.chain)), emit.ZI(int64(b.contract)), emit.ZU(b.timeout), emit.ZU(b.gas), coqTxs(b.txs))
+		bs[i] = emit.Pair(emit.ZU(b.nonce), emit.ZI(int64(chainRank[b.chain])), emit.ZI(int64(b.contract)), emit.ZU(b.timeout), emit.ZU(b.gas), coqTxs(b.txs))
 	}
 	delta := func(a, b []*big.Int) string {
 		out := make([]*big.Int, len(a))
 		for i := range a {
 			out[i] = new(big.Int).Sub(a[i], b[i])
 		}
-		return emit.ZList(out)
+		return emit.ZList(byRank(out))
 	}
 	return fmt.Sprintf("{| C01.o_ok := %s; C01.o_pool := %s; C01.o_batches := %s; C01.o_bals := %s; C01.o_escrow := %s; C01.o_supply := %s; C01.o_comm := %s |}",
-		emit.Bool(ok), coqTxs(s.pool), emit.List(bs), emit.ZList(s.bals), emit.ZList(s.escrow), delta(s.supply, h.s0.supply), delta(s.comm, h.s0.comm))
+		emit.Bool(ok), coqTxs(s.pool), emit.List(bs), emit.ZList(balsByRank(s.bals)), emit.ZList(byRank(s.escrow)), delta(s.supply, h.s0.supply), delta(s.comm, h.s0.comm))
 }
 
-// exec runs one operation on the real keeper, evaluates the oracle and records the step.
-func (h *hist) exec(o opSpec) {
+func coqRecv(r int) string {
+	switch {
+	case r < nUsers:
+		return fmt.Sprintf("(RUser %d)", r)
+	case r == 4:
+		return "RBlocked"
+	}
+	return "RInvalid"
+}
+
+func coqEv(ev evSpec) string {
+	if ev.Kind == "exe" {
+		return fmt.Sprintf("EvExecuted %d %d %d %d", chainRank[ev.C], ev.K, ev.Nonce, ev.Eth)
+	}
+	amt, _ := new(big.Int).SetString(ev.Amt, 10)
+	return fmt.Sprintf("EvDeposit %d %d %s %s", chainRank[ev.C], ev.K, coqRecv(ev.R), zc(amt))
+}
+
+// inputs of an operation that are read off the pre-state (the same for the operation and its probes)
+type prep struct {
+	tax    *big.Int
+	lim    bool
+	groups string // OEndBlockFull: the claims waiting per active chain, the estimates waiting
+	ests   string
+	full   bool
+}
+
+func (h *hist) recvAddr(r int) string {
+	switch {
+	case r < nUsers:
+		return h.e.users[r].String()
+	case r == 4:
+		return h.e.dist.String()
+	}
+	return "invalid"
+}
+
+func (h *hist) claimOf(ev evSpec, sky uint64, orch sdk.AccAddress) interface {
+	types.EthereumClaim
+	proto.Message
+} {
+	if ev.Kind == "exe" {
+		return &types.MsgBatchSendToRemoteClaim{EventNonce: sky, EthBlockHeight: ev.Eth, BatchNonce: ev.Nonce, TokenContract: contracts[ev.K],
+			ChainReferenceId: chains[ev.C], Orchestrator: orch.String(), SkywayNonce: sky, Metadata: meta(orch), CompassId: h.e.compass[ev.C]}
+	}
+	amt, _ := new(big.Int).SetString(ev.Amt, 10)
+	return &types.MsgSendToPalomaClaim{EventNonce: sky, EthBlockHeight: ev.Eth, TokenContract: contracts[ev.K], Amount: sdkmath.NewIntFromBigInt(amt),
+		EthereumSender: ethSender, PalomaReceiver: h.recvAddr(ev.R), Orchestrator: orch.String(), ChainReferenceId: chains[ev.C], SkywayNonce: sky, Metadata: meta(orch), CompassId: h.e.compass[ev.C]}
+}
+
+// prepare computes the inputs the model takes from the implementation's pre-state and, for a
+// block, casts the votes / estimates that are on the table when the block ends.
+func (h *hist) prepare(o *opSpec) prep {
 	e := h.e
-	before := e.snapshot(e.root)
-	e.f.arm(o.Fault)
+	p := prep{tax: big.NewInt(0)}
+	e.f.arm(-1, false)
+	switch o.Kind {
+	case "send":
+		amt, _ := new(big.Int).SetString(o.Amt, 10)
+		coin := sdk.Coin{Denom: denoms[o.D], Amount: sdkmath.NewIntFromBigInt(amt)}
+		if tx, terr := keeper.VerifC01BridgeTaxAmount(e.k, e.root, e.users[o.U], coin); terr == nil {
+			p.tax = tx.BigInt()
+		}
+		// the transfer-limit decision (C15 proves how it is taken): run the check on a discarded branch
+		b, _ := e.root.CacheContext()
+		func() {
+			defer func() { _ = recover() }()
+			p.lim = e.k.UpdateBridgeTransferUsageWithLimit(b, e.users[o.U], coin) != nil
+		}()
+	case "endblock", "fullblock":
+		for _, ev := range o.Evs {
+			if ev.Eth < e.lastEth[ev.C] {
+				ev.Eth = e.lastEth[ev.C] // remote heights never go back (TryAttestation would refuse the claim for ever)
+			}
+			e.lastEth[ev.C] = ev.Eth
+			sky := e.skyNonce[ev.C]
+			e.skyNonce[ev.C]++
+			for _, orch := range keeper.AccAddrs {
+				cl := h.claimOf(ev, sky, orch)
+				any, err := codectypes.NewAnyWithValue(cl)
+				if err != nil {
+					panic(err)
+				}
+				if _, err := e.k.Attest(e.root, cl, any); err != nil {
+					panic(fmt.Sprintf("Attest %+v: %v", ev, err))
+				}
+			}
+			e.queue[ev.C] = append(e.queue[ev.C], ev)
+		}
+		for _, es := range o.Ests {
+			for i, acc := range keeper.AccAddrs {
+				_, err := e.k.SetBatchGasEstimate(e.root, &types.MsgEstimateBatchGas{Metadata: meta(acc), Nonce: es.Nonce, TokenContract: contracts[es.K], EthSigner: keeper.EthAddrs[i].String(), Estimate: es.Est})
+				if err != nil {
+					panic(fmt.Sprintf("SetBatchGasEstimate %+v: %v", es, err))
+				}
+			}
+			e.pendEst = append(e.pendEst, es)
+		}
+		var gs []string
+		any := false
+		for _, c := range e.active {
+			var evs []string
+			for _, ev := range e.queue[c] {
+				evs = append(evs, coqEv(ev))
+				any = true
+			}
+			gs = append(gs, emit.List(evs))
+		}
+		// processGasEstimates walks the open batches in store order
+		var es []string
+		for _, b := range e.snapshot(e.root).batches {
+			for _, pe := range e.pendEst {
+				if pe.K == b.contract && pe.Nonce == b.nonce {
+					es = append(es, emit.Pair(emit.ZI(int64(pe.K)), emit.ZU(pe.Nonce), emit.ZU(pe.Est)))
+					any = true
+				}
+			}
+		}
+		p.groups, p.ests, p.full = emit.List(gs), emit.List(es), any || o.Kind == "fullblock"
+	}
+	return p
+}
+
+type result struct {
+	err    error
+	pan    bool
+	term   string
+	atomic bool
+	fired  string
+	calls  int
+}
+
+// apply runs one operation on ctx (the root, or a branch that is thrown away) under the op's fault.
+func (h *hist) apply(ctx sdk.Context, o opSpec, p prep) result {
+	e := h.e
 	now := time.Unix(e.t0+o.Now, 0).UTC()
-	var err error
-	var pan bool
-	var term string
-	atomicKind := true
-	tax := big.NewInt(0)
+	r := result{atomic: true}
 	amt := new(big.Int)
-	if o.Amt != "" && o.Kind != "settax" {
+	if o.Amt != "" && o.Kind != "settax" && o.Kind != "setlimit" {
 		amt.SetString(o.Amt, 10)
 	}
+	// the model's fault for an all-or-nothing operation: a panic there is a failure like any other
+	fl := coqFault(o.Fault)
+	e.rec.log = nil
+	e.f.arm(o.Fault, o.Panic)
 	switch o.Kind {
 	case "send":
 		coin := sdk.Coin{Denom: denoms[o.D], Amount: sdkmath.NewIntFromBigInt(amt)}
-		e.f.arm(-1)
-		if tx, terr := keeper.VerifC01BridgeTaxAmount(e.k, e.root, e.users[o.U], coin); terr == nil {
-			tax = tx.BigInt()
-		}
-		e.f.arm(o.Fault)
-		err, pan = deliver(e.root, true, func(ctx sdk.Context) error {
-			_, err := e.ms.SendToRemote(ctx, &types.MsgSendToRemote{EthDest: ethDest, Amount: coin, ChainReferenceId: chains[o.C], Metadata: md(e.users[o.U])})
+		r.err, r.pan = deliver(ctx, true, func(ctx sdk.Context) error {
+			_, err := e.ms.SendToRemote(ctx, &types.MsgSendToRemote{EthDest: ethDest, Amount: coin, ChainReferenceId: chains[o.C], Metadata: meta(e.users[o.U])})
 			return err
 		})
-		term = fmt.Sprintf("OSend %d %d %d %s %s %s", o.U, o.C, o.D, zc(amt), zc(tax), coqFault(o.Fault))
+		r.term = fmt.Sprintf("OSend %d %d %d %s %s %s %s", o.U, chainRank[o.C], denomRank[o.D], zc(amt), zc(p.tax), emit.Bool(p.lim), fl)
 	case "cancel":
-		err, pan = deliver(e.root, true, func(ctx sdk.Context) error {
-			_, err := e.ms.CancelSendToRemote(ctx, &types.MsgCancelSendToRemote{TransactionId: o.ID, Metadata: md(e.users[o.U])})
+		r.err, r.pan = deliver(ctx, true, func(ctx sdk.Context) error {
+			_, err := e.ms.CancelSendToRemote(ctx, &types.MsgCancelSendToRemote{TransactionId: o.ID, Metadata: meta(e.users[o.U])})
 			return err
 		})
-		term = fmt.Sprintf("OCancel %d %d %s", o.U, o.ID, coqFault(o.Fault))
+		r.term = fmt.Sprintf("OCancel %d %d %s", o.U, o.ID, fl)
 	case "build":
-		err, pan = deliver(e.root.WithBlockTime(now), false, func(ctx sdk.Context) error {
+		r.err, r.pan = deliver(ctx.WithBlockTime(now), false, func(ctx sdk.Context) error {
 			_, err := e.k.BuildOutgoingTXBatch(ctx, chains[o.C], contractAddr(o.K), uint(o.Max))
 			return err
 		})
-		term = fmt.Sprintf("OBuild %d %d %d %d %s", o.C, o.K, o.Max, now.Unix(), coqFault(o.Fault))
+		r.term = fmt.Sprintf("OBuild %d %d %d %d %s", chainRank[o.C], o.K, o.Max, now.Unix(), fl)
 	case "createbatch":
-		atomicKind = false
-		err, pan = deliver(e.root.WithBlockTime(now).WithBlockHeight(o.H), false, func(ctx sdk.Context) error {
+		r.atomic = false
+		r.err, r.pan = deliver(ctx.WithBlockTime(now).WithBlockHeight(o.H), false, func(ctx sdk.Context) error {
 			return skyway.VerifC01CreateBatch(ctx, e.k)
 		})
-		term = fmt.Sprintf("OCreateBatch %d %d %s", o.H, now.Unix(), coqFault(o.Fault))
+		r.term = fmt.Sprintf("OCreateBatch %d %d %s", o.H, now.Unix(), fl)
 	case "sweep":
-		atomicKind = false
-		err, pan = deliver(e.root.WithBlockTime(now), false, func(ctx sdk.Context) error {
+		r.atomic = false
+		r.err, r.pan = deliver(ctx.WithBlockTime(now), false, func(ctx sdk.Context) error {
 			return skyway.VerifC01CleanupTimedOutBatches(ctx, e.k)
 		})
-		term = fmt.Sprintf("OSweep %d %s", now.Unix(), coqFault(o.Fault))
-	case "endblock":
-		atomicKind = false
-		err, pan = deliver(e.root.WithBlockTime(now).WithBlockHeight(o.H), false, func(ctx sdk.Context) error {
+		r.term = fmt.Sprintf("OSweep %d %s", now.Unix(), fl)
+	case "endblock", "fullblock":
+		r.atomic = false
+		r.err, r.pan = deliver(ctx.WithBlockTime(now).WithBlockHeight(o.H), false, func(ctx sdk.Context) error {
 			skyway.EndBlocker(ctx, e.k, e.cc)
 			return nil
 		})
-		term = fmt.Sprintf("OEndBlock %d %d %s", o.H, now.Unix(), coqFault(o.Fault))
+		if p.full || o.Panic {
+			f, pf := fl, "nofault"
+			if o.Panic {
+				f, pf = "nofault", fl
+			}
+			r.term = fmt.Sprintf("OEndBlockFull %d %d %s %s %s %s", o.H, now.Unix(), p.groups, p.ests, f, pf)
+		} else {
+			r.term = fmt.Sprintf("OEndBlock %d %d %s", o.H, now.Unix(), fl)
+		}
 	case "settax":
 		// governance changes the denom's bridge tax (rate and exemption list) while transfers are pending
 		var ex []string
@@ -568,20 +847,53 @@ func (h *hist) exec(o opSpec) {
 				ex = append(ex, e.users[u].String())
 			}
 		}
-		err, pan = deliver(e.root, true, func(ctx sdk.Context) error {
+		r.err, r.pan = deliver(ctx, true, func(ctx sdk.Context) error {
 			return e.gov(ctx, &types.SetBridgeTaxProposal{Title: "t", Description: "d", Rate: o.Amt, Token: denoms[o.D], ExemptAddresses: ex})
 		})
-		if err != nil || pan {
-			panic(fmt.Sprintf("SetBridgeTaxProposal(%q) failed: %v", o.Amt, err))
+		if r.err != nil || r.pan {
+			panic(fmt.Sprintf("SetBridgeTaxProposal(%q) failed: %v", o.Amt, r.err))
 		}
-		term = "OGov"
+		r.term = "OGov"
+	case "setlimit":
+		// governance sets / changes the denom's transfer limit while transfers are pending
+		var ex []string
+		for u := 0; u < nUsers; u++ {
+			if o.U&(1<<u) != 0 {
+				ex = append(ex, e.users[u].String())
+			}
+		}
+		lim, _ := sdkmath.NewIntFromString(o.Amt)
+		r.err, r.pan = deliver(ctx, true, func(ctx sdk.Context) error {
+			return e.gov(ctx, &types.SetBridgeTransferLimitProposal{Title: "t", Description: "d", Token: denoms[o.D], Limit: lim, LimitPeriod: types.LimitPeriod(o.R), ExemptAddresses: ex})
+		})
+		if r.err != nil || r.pan {
+			panic(fmt.Sprintf("SetBridgeTransferLimitProposal(%q) failed: %v", o.Amt, r.err))
+		}
+		r.term = "OGov"
+	case "mapgov":
+		// governance path of setDenomToERC20 (legacy proposal handler; MsgSetERC20MappingProposal calls the same function)
+		r.err, r.pan = deliver(ctx, true, func(ctx sdk.Context) error {
+			return e.gov(ctx, &types.SetERC20ToDenomProposal{Title: "t", Description: "d", ChainReferenceId: chains[o.C], Erc20: contracts[o.K], Denom: denoms[o.D]})
+		})
+		if r.err != nil || r.pan {
+			panic(fmt.Sprintf("SetERC20ToDenomProposal failed: %v", r.err))
+		}
+		r.term = fmt.Sprintf("OMapGov %d %d %d", chainRank[o.C], denomRank[o.D], o.K)
+	case "mapadmin":
+		// token admin path: msgServer.SetERC20ToTokenDenom
+		r.err, r.pan = deliver(ctx, true, func(ctx sdk.Context) error {
+			_, err := e.ms.SetERC20ToTokenDenom(ctx, &types.MsgSetERC20ToTokenDenom{Metadata: meta(e.users[o.U]), Denom: denoms[o.D], ChainReferenceId: chains[o.C], Erc20: contracts[o.K]})
+			return err
+		})
+		auth := o.U == 0 && o.D == 2 // user 0 administers the factory denom; the other denoms are not factory denoms
+		r.term = fmt.Sprintf("OMapAdmin %d %d %d %s %s", chainRank[o.C], denomRank[o.D], o.K, emit.Bool(auth), fl)
 	case "cancelbatch":
-		err, pan = deliver(e.root, false, func(ctx sdk.Context) error {
+		r.err, r.pan = deliver(ctx, false, func(ctx sdk.Context) error {
 			return e.k.CancelOutgoingTXBatch(ctx, contractAddr(o.K), o.Nonce)
 		})
-		term = fmt.Sprintf("OCancelBatch %d %d %s", o.K, o.Nonce, coqFault(o.Fault))
+		r.term = fmt.Sprintf("OCancelBatch %d %d %s", o.K, o.Nonce, fl)
 	case "setgas":
-		err, pan = deliver(e.root, false, func(ctx sdk.Context) error {
+		r.err, r.pan = deliver(ctx, false, func(ctx sdk.Context) error {
 			b, gerr := e.k.GetOutgoingTXBatch(ctx, contractAddr(o.K), o.Nonce)
 			if gerr != nil {
 				return gerr
@@ -591,61 +903,23 @@ func (h *hist) exec(o opSpec) {
 			}
 			return e.k.UpdateBatchGasEstimate(ctx, *b, o.Est)
 		})
-		term = fmt.Sprintf("OSetGas %d %d %d %s", o.K, o.Nonce, o.Est, coqFault(o.Fault))
+		r.term = fmt.Sprintf("OSetGas %d %d %d %s", o.K, o.Nonce, o.Est, fl)
 	case "executed":
 		claim := &types.MsgBatchSendToRemoteClaim{EventNonce: 1, EthBlockHeight: o.Eth, BatchNonce: o.Nonce, TokenContract: contracts[o.K],
-			ChainReferenceId: chains[o.C], Orchestrator: e.users[0].String(), SkywayNonce: 1, Metadata: md(e.users[0])}
-		err, pan = h.attest(claim)
-		term = fmt.Sprintf("OExecuted %d %d %d %d %s", o.C, o.K, o.Nonce, o.Eth, coqFault(o.Fault))
+			ChainReferenceId: chains[o.C], Orchestrator: e.users[0].String(), SkywayNonce: 1, Metadata: meta(e.users[0])}
+		r.err, r.pan = h.attest(ctx, claim)
+		r.term = fmt.Sprintf("OExecuted %d %d %d %d %s", chainRank[o.C], o.K, o.Nonce, o.Eth, fl)
 	case "deposit":
-		recv := "invalid"
-		switch {
-		case o.R < nUsers:
-			recv = e.users[o.R].String()
-		case o.R == 4:
-			recv = e.dist.String()
-		}
 		claim := &types.MsgSendToPalomaClaim{EventNonce: 1, EthBlockHeight: 1, TokenContract: contracts[o.K], Amount: sdkmath.NewIntFromBigInt(amt),
-			EthereumSender: ethSender, PalomaReceiver: recv, Orchestrator: e.users[0].String(), ChainReferenceId: chains[o.C], SkywayNonce: 1, Metadata: md(e.users[0])}
-		err, pan = h.attest(claim)
-		rt := "RInvalid"
-		switch {
-		case o.R < nUsers:
-			rt = fmt.Sprintf("(RUser %d)", o.R)
-		case o.R == 4:
-			rt = "RBlocked"
-		}
-		term = fmt.Sprintf("ODeposit %d %d %s %s %s", o.C, o.K, rt, zc(amt), coqFault(o.Fault))
+			EthereumSender: ethSender, PalomaReceiver: h.recvAddr(o.R), Orchestrator: e.users[0].String(), ChainReferenceId: chains[o.C], SkywayNonce: 1, Metadata: meta(e.users[0])}
+		r.err, r.pan = h.attest(ctx, claim)
+		r.term = fmt.Sprintf("ODeposit %d %d %s %s %s", chainRank[o.C], o.K, coqRecv(o.R), zc(amt), fl)
 	default:
 		panic("unknown op kind " + o.Kind)
 	}
-	fired := e.f.fired
-	e.f.arm(-1)
-	after := e.snapshot(e.root)
-	ok := err == nil && !pan
-	h.ops = append(h.ops, o)
-	line := fmt.Sprintf("%+v -> ok=%v", o, ok)
-	if err != nil {
-		line += " err=" + firstLine(err.Error())
-	}
-	if fired != "" {
-		line += " [fault fired at " + fired + "]"
-		h.faultN++
-		h.run.Count("fault-fired", o.Kind+"/"+fired)
-	}
-	h.human = append(h.human, line)
-	h.run.Count("op", o.Kind)
-	if pan {
-		h.run.Count("outcome", o.Kind+"/panic")
-	} else if ok {
-		h.run.Count("outcome", o.Kind+"/ok")
-		h.okN++
-	} else {
-		h.run.Count("outcome", o.Kind+"/err")
-		h.errN++
-	}
-	h.oracle(o, ok, atomicKind, before, after)
-	h.steps = append(h.steps, "("+term+", "+h.coqObs(ok, after)+")")
+	r.fired, r.calls = e.f.fired, e.f.calls
+	e.f.arm(-1, false)
+	return r
 }
 
 func firstLine(s string) string {
@@ -659,7 +933,7 @@ func firstLine(s string) string {
 }
 
 // attest = "the attestation handler runs once for this claim": the real processAttestation.
-func (h *hist) attest(claim interface {
+func (h *hist) attest(ctx sdk.Context, claim interface {
 	types.EthereumClaim
 	proto.Message
 }) (error, bool) {
@@ -668,9 +942,9 @@ func (h *hist) attest(claim interface {
 	if aerr != nil {
 		panic(aerr)
 	}
-	att := &types.Attestation{Observed: true, Votes: []string{}, Height: uint64(e.root.BlockHeight()), Claim: any}
+	att := &types.Attestation{Observed: true, Votes: []string{}, Height: uint64(ctx.BlockHeight()), Claim: any}
 	e.rec.called, e.rec.err = false, nil
-	err, pan := deliver(e.root, false, func(ctx sdk.Context) error {
+	err, pan := deliver(ctx, false, func(ctx sdk.Context) error {
 		return keeper.VerifC01ProcessAttestation(e.k, ctx, att, claim)
 	})
 	if pan {
@@ -685,8 +959,237 @@ func (h *hist) attest(claim interface {
 	return e.rec.err, false
 }
 
+// probe-able: operations whose every fault point can be tried from the same pre-state
+func faultable(kind string) bool {
+	switch kind {
+	case "settax", "setlimit", "mapgov":
+		return false
+	}
+	return true
+}
+
+// a panic fault the model can follow: inside the whole end-blocker (pf), or in an all-or-nothing
+// operation with a single exit per collaborator call (a deposit goes on after a failed forward)
+func panicable(kind string) bool {
+	switch kind {
+	case "endblock", "fullblock", "build", "cancelbatch", "setgas", "executed", "createbatch", "sweep":
+		return true
+	}
+	return false
+}
+
+// probes runs o from the current state on discarded branches of the store: without fault (to count
+// the collaborator calls N), then with every selected fault point as an error and as a panic.
+func (h *hist) probes(o opSpec, p prep, before snap, all bool) []string {
+	e := h.e
+	if !faultable(o.Kind) {
+		return nil
+	}
+	var out []string
+	one := func(po opSpec) int {
+		b, _ := e.root.CacheContext()
+		r := h.apply(b, po, p)
+		after := e.snapshot(b)
+		ok := r.err == nil && !r.pan
+		h.probeN++
+		h.run.Count("probe", po.Kind+fmt.Sprintf("/fault=%v/panic=%v", po.Fault >= 0, po.Panic))
+		if r.fired != "" {
+			h.run.Count("probe-fault-fired", po.Kind+"/"+r.fired)
+		}
+		h.stateOracle(po, "probe of "+po.Kind, after, e.denomBranch(b))
+		if !ok && r.atomic && !before.equal(after) {
+			h.violate("C01:failed-"+po.Kind+"-changed-state", fmt.Sprintf("%s (fault %d, panic %v) reported failure but pool/batches/balances changed", po.Kind, po.Fault, po.Panic))
+		}
+		if !ok && po.Kind == "send" && !usageEq(before, after) {
+			h.violate("C01:failed-send-changed-limit-usage", "a refused SendToRemote changed the transfer-limit usage")
+		}
+		if before.equal(after) {
+			out = append(out, fmt.Sprintf("(%s, C01.PSame %s)", r.term, emit.Bool(ok)))
+		} else {
+			out = append(out, fmt.Sprintf("(%s, C01.PObs %s)", r.term, h.coqObs(ok, after)))
+		}
+		return r.calls
+	}
+	po := o
+	po.Fault, po.Panic = -1, false
+	n := one(po)
+	ks := make([]int, 0, n)
+	for k := 0; k < n; k++ {
+		ks = append(ks, k)
+	}
+	if !all && n > 3 {
+		// quick tier: three fault points of a long operation
+		h.run.Rng.Shuffle(len(ks), func(i, j int) { ks[i], ks[j] = ks[j], ks[i] })
+		ks = ks[:3]
+		sort.Ints(ks)
+	}
+	for _, k := range ks {
+		po.Fault, po.Panic = k, false
+		one(po)
+		if panicSafe && panicable(o.Kind) {
+			po.Panic = true
+			h.panics = true
+			one(po)
+		}
+	}
+	return out
+}
+
+func usageEq(a, b snap) bool {
+	for i := range a.usage {
+		if a.usage[i] != b.usage[i] {
+			return false
+		}
+	}
+	return true
+}
+
+// denomBranch: the ERC20ToDenom index as seen on ctx
+func (e *env) denomBranch(ctx sdk.Context) func(c, k int) int {
+	return func(c, k int) int { return e.denomOf(ctx, c, k) }
+}
+
+// exec runs one operation on the real keeper (with its probes first), evaluates the oracle and records the step.
+func (h *hist) exec(o opSpec, probe, all bool) {
+	e := h.e
+	before := e.snapshot(e.root)
+	p := h.prepare(&o)
+	if o.Panic && !panicSafe {
+		o.Panic = false // reported once by probePanicSafe; the model follows the repaired code
+	}
+	if o.Panic {
+		h.panics = true
+	}
+	var probes []string
+	if probe {
+		probes = h.probes(o, p, before, all)
+	}
+	r := h.apply(e.root, o, p)
+	handledLog := e.rec.log
+	after := e.snapshot(e.root)
+	ok := r.err == nil && !r.pan
+	h.ops = append(h.ops, o)
+	line := fmt.Sprintf("%+v -> ok=%v", o, ok)
+	if r.err != nil {
+		line += " err=" + firstLine(r.err.Error())
+	}
+	if r.fired != "" {
+		line += " [fault fired at " + r.fired + "]"
+		h.faultN++
+		h.run.Count("fault-fired", o.Kind+"/"+r.fired)
+		if o.Panic {
+			h.run.Count("panic-fired", o.Kind+"/"+r.fired)
+		}
+	}
+	h.human = append(h.human, line)
+	h.run.Count("op", o.Kind)
+	if r.pan {
+		h.run.Count("outcome", o.Kind+"/panic")
+	} else if ok {
+		h.run.Count("outcome", o.Kind+"/ok")
+		h.okN++
+	} else {
+		h.run.Count("outcome", o.Kind+"/err")
+		h.errN++
+	}
+	if o.Kind == "send" && p.lim {
+		h.run.Count("send-over-transfer-limit", fmt.Sprint(!ok))
+	}
+	h.oracle(o, ok, r.atomic, before, after, handledLog)
+	if o.Kind == "endblock" || o.Kind == "fullblock" {
+		h.afterBlock(after)
+	}
+	mo := "C01.MFull " + h.coqObs(ok, after)
+	if o.Quiet {
+		mo = "C01.MOk " + emit.Bool(ok)
+	}
+	h.steps = append(h.steps, "("+r.term+", "+mo+", "+emit.List(probes)+")")
+}
+
+// afterBlock drops the claims the tally consumed and the estimates whose batch is gone or priced.
+func (h *hist) afterBlock(after snap) {
+	e := h.e
+	for c, ch := range chains {
+		last, err := e.k.GetLastObservedSkywayNonce(e.root, ch)
+		if err != nil {
+			panic(err)
+		}
+		first := e.skyNonce[c] - uint64(len(e.queue[c])) // nonce of the oldest waiting claim
+		for len(e.queue[c]) > 0 && first <= last {
+			e.queue[c] = e.queue[c][1:]
+			first++
+			h.run.Count("claims-tallied-by-endblocker", chains[c])
+		}
+	}
+	h.pruneEsts(after)
+}
+
+func (h *hist) pruneEsts(after snap) {
+	e := h.e
+	var keep []estSpec
+	for _, pe := range e.pendEst {
+		for _, b := range after.batches {
+			if b.contract == pe.K && b.nonce == pe.Nonce && b.gas == 0 {
+				keep = append(keep, pe)
+			}
+		}
+	}
+	e.pendEst = keep
+}
+
 // ---- the property's direct oracle, on the real state ----
-func (h *hist) oracle(o opSpec, ok, atomicKind bool, before, after snap) {
+
+// stateOracle: what must hold of every reachable state (also of the states probes reach).
+func (h *hist) stateOracle(o opSpec, where string, after snap, denomOf func(c, k int) int) {
+	// (1) escrow = sum of amount+tax over pending transfers, per denom: by the denom whose coins were
+	// locked when the transfer was accepted, and by the denom the table maps the transfer to now
+	pend := make([]*big.Int, len(denoms))
+	pendT := make([]*big.Int, len(denoms))
+	for i := range pend {
+		pend[i], pendT[i] = big.NewInt(0), big.NewInt(0)
+	}
+	addTx := func(t txo) {
+		d := denomOf(t.chain, t.contract)
+		if d >= 0 {
+			pendT[d].Add(pendT[d], new(big.Int).Add(t.amount, t.tax))
+		}
+		if ld, f := h.accD[t.id]; f {
+			pend[ld].Add(pend[ld], new(big.Int).Add(t.amount, t.tax))
+			if d != ld {
+				h.violate("C01:pending-transfer-denom-changed", fmt.Sprintf("after %s: transfer %d locked %s but the denom table now maps its contract to %v: refund / burn would be in another denom", where, t.id, denoms[ld], d))
+			}
+		}
+	}
+	for _, t := range after.pool {
+		addTx(t)
+	}
+	for _, b := range after.batches {
+		if len(b.txs) == 0 || len(b.txs) > keeper.OutgoingTxBatchSize {
+			h.violate("C01:batch-size", fmt.Sprintf("after %s: batch %d holds %d transfers", where, b.nonce, len(b.txs)))
+		}
+		for _, t := range b.txs {
+			addTx(t)
+			if t.chain != b.chain || t.contract != b.contract {
+				h.violate("C01:batch-holds-foreign-transfer", fmt.Sprintf("after %s: batch %d for %s holds transfer %d of %s", where, b.nonce, chains[b.chain], t.id, chains[t.chain]))
+			}
+		}
+	}
+	for d := range denoms {
+		if after.escrow[d].Cmp(pendT[d]) != 0 {
+			h.violate("C01:escrow-ne-pending", fmt.Sprintf("after %s: escrow of %s is %s but pending transfers sum to %s", where, denoms[d], after.escrow[d], pendT[d]))
+		}
+	}
+	// the pool is in store order: descending (contract, amount, id) — the order batches are filled in
+	for i := 1; i < len(after.pool); i++ {
+		a, b := after.pool[i-1], after.pool[i]
+		less := a.contract < b.contract || (a.contract == b.contract && (a.amount.Cmp(b.amount) < 0 || (a.amount.Cmp(b.amount) == 0 && a.id < b.id)))
+		if less {
+			h.violate("C01:pool-order", fmt.Sprintf("after %s: pool not in descending (contract, amount, id) order at %d", where, i))
+		}
+	}
+}
+
+func (h *hist) oracle(o opSpec, ok, atomicKind bool, before, after snap, log []handled) {
 	e := h.e
 	findBatch := func(s snap, k int, nonce uint64) *bo {
 		for i := range s.batches {
@@ -695,6 +1198,16 @@ func (h *hist) oracle(o opSpec, ok, atomicKind bool, before, after snap) {
 			}
 		}
 		return nil
+	}
+	burnBatch := func(k int, nonce uint64) {
+		if b := findBatch(before, k, nonce); b != nil {
+			for _, t := range b.txs {
+				h.burned[t.id] = true
+				if d, f := h.accD[t.id]; f {
+					h.exe[d].Add(h.exe[d], new(big.Int).Add(t.amount, t.tax))
+				}
+			}
+		}
 	}
 	// bookkeeping of what the history says happened
 	if ok {
@@ -708,6 +1221,7 @@ func (h *hist) oracle(o opSpec, ok, atomicKind bool, before, after snap) {
 			for _, t := range after.pool {
 				if !seen[t.id] {
 					h.acc[t.id] = t
+					h.accD[t.id] = o.D
 					n++
 				}
 			}
@@ -726,65 +1240,90 @@ func (h *hist) oracle(o opSpec, ok, atomicKind bool, before, after snap) {
 		case "cancel":
 			h.refund[o.ID] = true
 			if t, f := h.acc[o.ID]; f {
-				d := e.denomOf(t.chain, t.contract)
+				d := h.accD[o.ID]
 				want := new(big.Int).Add(t.amount, t.tax)
 				i := t.sender*len(denoms) + d
-				if d < 0 || new(big.Int).Sub(after.bals[i], before.bals[i]).Cmp(want) != 0 {
-					h.violate("C01:refund-not-in-full", fmt.Sprintf("cancel of transfer %d refunded %s, expected amount+tax=%s", o.ID, new(big.Int).Sub(after.bals[i], before.bals[i]), want))
+				if new(big.Int).Sub(after.bals[i], before.bals[i]).Cmp(want) != 0 {
+					h.violate("C01:refund-not-in-full", fmt.Sprintf("cancel of transfer %d refunded %s %s, expected amount+tax=%s", o.ID, new(big.Int).Sub(after.bals[i], before.bals[i]), denoms[d], want))
 				}
 			}
 		case "executed":
-			if b := findBatch(before, o.K, o.Nonce); b != nil {
-				for _, t := range b.txs {
-					h.burned[t.id] = true
-					if d := e.denomOf(t.chain, t.contract); d >= 0 {
-						h.exe[d].Add(h.exe[d], new(big.Int).Add(t.amount, t.tax))
-					}
-				}
-			}
+			burnBatch(o.K, o.Nonce)
 		case "deposit":
-			if d := e.denomOf(o.C, o.K); d >= 0 {
+			if d := e.denomOf(e.root, o.C, o.K); d >= 0 {
 				amt, _ := new(big.Int).SetString(o.Amt, 10)
 				h.dep[d].Add(h.dep[d], amt)
 			}
 		}
 	}
-	if o.Kind == "settax" && !before.equal(after) {
-		h.violate("C01:governance-moved-bridge-funds", "SetBridgeTaxProposal changed pool / batches / balances")
+	// the attestation handlers the end-blocker ran to the end
+	if o.Kind == "endblock" || o.Kind == "fullblock" {
+		for _, hd := range log {
+			if hd.err != nil {
+				continue
+			}
+			switch cl := hd.claim.(type) {
+			case *types.MsgBatchSendToRemoteClaim:
+				burnBatch(cidx(cl.TokenContract), cl.BatchNonce)
+				h.run.Count("endblocker-handler-applied", "executed")
+			case *types.MsgSendToPalomaClaim:
+				if d := e.denomOf(e.root, idx(chains, cl.ChainReferenceId), cidx(cl.TokenContract)); d >= 0 {
+					h.dep[d].Add(h.dep[d], cl.Amount.BigInt())
+				}
+				h.run.Count("endblocker-handler-applied", "deposit")
+			}
+		}
+	}
+	if (o.Kind == "settax" || o.Kind == "setlimit" || o.Kind == "mapgov" || o.Kind == "mapadmin") && !before.equal(after) {
+		h.violate("C01:governance-moved-bridge-funds", o.Kind+" changed pool / batches / balances")
 	}
 	// (4) a bridge operation that reports failure leaves pool, batches and balances as they were
 	if !ok && atomicKind && !before.equal(after) {
 		h.violate("C01:failed-"+o.Kind+"-changed-state", fmt.Sprintf("%s reported failure but pool/batches/balances changed", o.Kind))
 	}
-	// (1) escrow = sum of amount+tax over pending transfers, per denom
-	pend := make([]*big.Int, len(denoms))
-	for i := range pend {
-		pend[i] = big.NewInt(0)
+	if !ok && o.Kind == "send" && !usageEq(before, after) {
+		h.violate("C01:failed-send-changed-limit-usage", "a refused SendToRemote changed the transfer-limit usage")
 	}
-	place := map[uint64]int{}
-	addTx := func(t txo) {
-		place[t.id]++
-		if d := e.denomOf(t.chain, t.contract); d >= 0 {
-			pend[d].Add(pend[d], new(big.Int).Add(t.amount, t.tax))
+	// a build takes the matching transfers in pool order, at most max (100 from the end-blocker)
+	for _, b := range after.batches {
+		if findBatch(before, b.contract, b.nonce) != nil {
+			continue
+		}
+		var want []txo
+		for _, t := range before.pool {
+			if t.contract == b.contract && t.chain == b.chain {
+				want = append(want, t)
+			}
+		}
+		max := keeper.OutgoingTxBatchSize
+		if o.Kind == "build" {
+			max = o.Max
+		}
+		if len(want) > max {
+			want = want[:max]
+			h.run.Count("batch-filled-to-cap", fmt.Sprint(max))
+		}
+		// (several builds in one block take disjoint tokens, so the pre-block pool is the right reference)
+		if !txsEq(want, b.txs) {
+			h.violate("C01:batch-not-first-in-pool-order", fmt.Sprintf("after %s: new batch %d does not hold the first %d matching transfers of the pool in store order", o.Kind, b.nonce, len(want)))
 		}
 	}
+	h.stateOracle(o, o.Kind, after, e.denomBranch(e.root))
+	// (2) every accepted transfer is in exactly one place
+	place := map[uint64]int{}
 	for _, t := range after.pool {
-		addTx(t)
+		place[t.id]++
 	}
 	for _, b := range after.batches {
 		for _, t := range b.txs {
-			addTx(t)
-			if t.chain != b.chain || t.contract != b.contract {
-				h.violate("C01:batch-holds-foreign-transfer", fmt.Sprintf("after %s: batch %d for %s holds transfer %d of %s", o.Kind, b.nonce, chains[b.chain], t.id, chains[t.chain]))
-			}
+			place[t.id]++
 		}
 	}
-	for d := range denoms {
-		if after.escrow[d].Cmp(pend[d]) != 0 {
-			h.violate("C01:escrow-ne-pending", fmt.Sprintf("after %s: escrow of %s is %s but pending transfers sum to %s", o.Kind, denoms[d], after.escrow[d], pend[d]))
+	for id := range place {
+		if _, f := h.acc[id]; !f {
+			h.violate("C01:unaccepted-transfer-pending", fmt.Sprintf("after %s: transfer %d is pending but was never accepted", o.Kind, id))
 		}
 	}
-	// (2) every accepted transfer is in exactly one place
 	for id := range h.refund {
 		place[id]++
 	}
@@ -801,9 +1340,18 @@ func (h *hist) oracle(o opSpec, ok, atomicKind bool, before, after snap) {
 			h.violate("C01:transfer-not-in-one-place", fmt.Sprintf("after %s: accepted transfer %d is in %d places (pool / batch / refunded / burned)", o.Kind, id, place[id]))
 		}
 	}
-	for id := range place {
-		if _, f := h.acc[id]; !f {
-			h.violate("C01:unaccepted-transfer-pending", fmt.Sprintf("after %s: transfer %d is pending but was never accepted", o.Kind, id))
+	// pending records are never rewritten
+	chk := func(t txo) {
+		if a, f := h.acc[t.id]; f && !txEq(a, t) {
+			h.violate("C01:pending-record-rewritten", fmt.Sprintf("after %s: the record of transfer %d differs from what was accepted", o.Kind, t.id))
+		}
+	}
+	for _, t := range after.pool {
+		chk(t)
+	}
+	for _, b := range after.batches {
+		for _, t := range b.txs {
+			chk(t)
 		}
 	}
 	// (3) supply changes only by attested deposits and attested executed batches
@@ -847,14 +1395,93 @@ func genConfig(r *rand.Rand) config {
 			cfg.Funds = append(cfg.Funds, fmt.Sprint(100+r.Intn(5000)))
 		}
 	}
+	for range denoms {
+		l := ""
+		if r.Intn(4) == 0 {
+			l = fmt.Sprint(20 + r.Intn(200))
+		}
+		cfg.Limits = append(cfg.Limits, l)
+	}
 	return cfg
 }
 
 type clock struct{ h, now int64 }
 
+// genEvents: claims that reach the vote threshold before a block ends
+func (h *hist) genEvents(r *rand.Rand, s snap, rows []entry, hostile bool) []evSpec {
+	var evs []evSpec
+	n := r.Intn(4)
+	usedBatch := map[[2]uint64]bool{}
+	for i := 0; i < n; i++ {
+		if len(s.batches) > 0 && r.Intn(2) == 0 {
+			b := s.batches[r.Intn(len(s.batches))]
+			key := [2]uint64{uint64(b.contract), b.nonce}
+			if usedBatch[key] && r.Intn(3) != 0 {
+				continue
+			}
+			usedBatch[key] = true
+			ev := evSpec{Kind: "exe", C: b.chain, K: b.contract, Nonce: b.nonce, Eth: uint64(1 + r.Intn(1000))}
+			if hostile {
+				switch r.Intn(3) {
+				case 0:
+					ev.C = 1 - b.chain // claim from the other chain
+				case 1:
+					ev.Nonce = b.nonce + uint64(1+r.Intn(3)) // unknown batch
+				case 2:
+					ev.Eth = b.timeout // timed out (boundary)
+				}
+			}
+			evs = append(evs, ev)
+		} else {
+			en := rows[r.Intn(len(rows))]
+			ev := evSpec{Kind: "dep", C: en.C, K: en.K, R: r.Intn(nUsers), Amt: fmt.Sprint(1 + r.Intn(500)), Eth: uint64(1 + r.Intn(1000))}
+			if hostile {
+				ev.C, ev.K, ev.R = r.Intn(len(chains)), r.Intn(len(contracts)), r.Intn(5)
+				if r.Intn(3) == 0 {
+					ev.Amt = "0"
+				}
+			} else if r.Intn(4) == 0 {
+				ev.R = 3 + r.Intn(2)
+			}
+			evs = append(evs, ev)
+		}
+	}
+	return evs
+}
+
+func (h *hist) genEsts(r *rand.Rand, s snap) []estSpec {
+	var out []estSpec
+	for _, b := range s.batches {
+		if b.gas != 0 || r.Intn(3) != 0 {
+			continue
+		}
+		dup := false
+		for _, pe := range h.e.pendEst {
+			if pe.K == b.contract && pe.Nonce == b.nonce {
+				dup = true
+			}
+		}
+		if !dup {
+			out = append(out, estSpec{K: b.contract, Nonce: b.nonce, Est: uint64(1+r.Intn(5)) * 21000})
+		}
+	}
+	return out
+}
+
+// freeContract: a contract address not bound on chain c (so binding it is inside every guard)
+func (h *hist) freeContract(r *rand.Rand, c int) int {
+	for _, k := range r.Perm(len(contracts)) {
+		if h.e.denomOf(h.e.root, c, k) < 0 {
+			return k
+		}
+	}
+	return -1
+}
+
 func (h *hist) genOp(r *rand.Rand, ck *clock, search bool) opSpec {
 	e := h.e
 	s := e.snapshot(e.root)
+	rows := e.rows(e.root)
 	ck.now += int64(r.Intn(260))
 	ck.h += int64(1 + r.Intn(20))
 	o := opSpec{Fault: -1}
@@ -862,20 +1489,89 @@ func (h *hist) genOp(r *rand.Rand, ck *clock, search bool) opSpec {
 		o.Fault = r.Intn(3)
 	}
 	hostile := r.Intn(100) < 15
-	pickEntry := func() entry { return e.table[r.Intn(len(e.table))] }
-	if r.Intn(100) < 9 {
+	pickEntry := func() entry { return rows[r.Intn(len(rows))] }
+	g := r.Intn(100)
+	switch {
+	case g < 7:
 		// governance: new tax rate and exemption list for a denom, preferably one with pending transfers
 		o.Kind, o.Fault = "settax", -1
 		o.D = r.Intn(len(denoms))
 		if len(s.pool) > 0 && r.Intn(4) != 0 {
 			t := s.pool[r.Intn(len(s.pool))]
-			if d := e.denomOf(t.chain, t.contract); d >= 0 {
+			if d := e.denomOf(e.root, t.chain, t.contract); d >= 0 {
 				o.D = d
 			}
 		}
 		o.Amt = []string{"0", "1/5", "1/3", "7/1000", "0.02", "1/2", "3/2"}[r.Intn(7)]
 		if r.Intn(3) == 0 {
 			o.U = r.Intn(1 << nUsers)
+		}
+		return o
+	case g < 10:
+		// governance: transfer limit of a denom (none / daily), small enough to bite
+		o.Kind, o.Fault = "setlimit", -1
+		o.D = r.Intn(len(denoms))
+		o.Amt = fmt.Sprint(r.Intn(120))
+		o.R = r.Intn(2)
+		if r.Intn(3) == 0 {
+			o.U = r.Intn(1 << nUsers)
+		}
+		return o
+	case g < 16:
+		// the denom table is written while transfers are pending, inside the guard "the contract is
+		// not bound to another denom on that chain": a new (chain, denom) pair, a denom re-mapped to a
+		// fresh contract (the old reverse entry stays), a second chain registering a contract address
+		// that is in use on the other chain, an existing pair re-asserted
+		o.Kind, o.Fault = "mapgov", -1
+		o.C, o.D = r.Intn(len(chains)), r.Intn(len(denoms))
+		switch r.Intn(4) {
+		case 0: // re-assert an existing pair
+			en := pickEntry()
+			o.C, o.D, o.K = en.C, en.D, en.K
+		case 1: // the contract of a pending transfer, as used on the other chain
+			o.K = -1
+			if len(s.pool) > 0 {
+				t := s.pool[r.Intn(len(s.pool))]
+				if d := e.denomOf(e.root, 1-t.chain, t.contract); d < 0 || d == o.D {
+					o.C, o.K = 1-t.chain, t.contract
+				}
+			}
+			if o.K < 0 {
+				o.K = h.freeContract(r, o.C)
+			}
+		default:
+			o.K = h.freeContract(r, o.C)
+		}
+		if o.K < 0 {
+			en := pickEntry()
+			o.C, o.D, o.K = en.C, en.D, en.K
+		}
+		if d := e.denomOf(e.root, o.C, o.K); d >= 0 && d != o.D {
+			o.D = d // stay inside the guard (the unguarded case is the known finding, see corpus G1)
+		}
+		h.run.Count("mapgov", fmt.Sprintf("contract-bound-before=%v denom-mapped-before=%v pending=%d", e.denomOf(e.root, o.C, o.K) >= 0, hasRow(rows, o.C, o.D), len(s.pool)+len(s.batches)))
+		return o
+	case g < 21:
+		// token admin path: only user 0 and only for the factory denom; refused when the contract is bound
+		o.Kind = "mapadmin"
+		o.U, o.C, o.D = 0, r.Intn(len(chains)), 2
+		o.K = h.freeContract(r, o.C)
+		if hostile || o.K < 0 {
+			switch r.Intn(3) {
+			case 0:
+				o.U = 1 + r.Intn(2) // not the admin
+			case 1:
+				o.D = r.Intn(2) // not a factory denom
+			default:
+				en := pickEntry() // contract already bound on that chain
+				o.C, o.K = en.C, en.K
+			}
+		}
+		if o.K < 0 {
+			o.K = r.Intn(len(contracts))
+		}
+		if o.Fault >= 0 {
+			o.Fault = 0
 		}
 		return o
 	}
@@ -885,6 +1581,11 @@ func (h *hist) genOp(r *rand.Rand, ck *clock, search bool) opSpec {
 	}
 	if len(s.pool) == 0 && w >= 30 && w < 62 && r.Intn(3) != 0 {
 		w = r.Intn(30)
+	}
+	pan := func() {
+		if o.Fault >= 0 && panicSafe && r.Intn(100) < 35 {
+			o.Panic = true
+		}
 	}
 	switch {
 	case w < 30:
@@ -918,13 +1619,18 @@ func (h *hist) genOp(r *rand.Rand, ck *clock, search bool) opSpec {
 		o.Kind = "build"
 		en := pickEntry()
 		o.C, o.K, o.Max, o.Now = en.C, en.K, []int{1, 2, 3, 100}[r.Intn(4)], ck.now
+		if len(s.pool) > 0 && r.Intn(2) == 0 {
+			t := s.pool[r.Intn(len(s.pool))] // also contracts whose denom was re-mapped since
+			o.C, o.K = t.chain, t.contract
+		}
 		if hostile {
 			o.Max = 0
 		}
 		if o.Fault >= 0 {
 			o.Fault = r.Intn(4)
 		}
-	case w < 62:
+		pan()
+	case w < 59:
 		o.Kind = "createbatch"
 		ck.h = (ck.h/50 + 1) * 50
 		if hostile {
@@ -932,9 +1638,10 @@ func (h *hist) genOp(r *rand.Rand, ck *clock, search bool) opSpec {
 		}
 		o.H, o.Now = ck.h, ck.now
 		if o.Fault >= 0 {
-			o.Fault = r.Intn(3 * (len(e.table) + 1))
+			o.Fault = r.Intn(3 * (len(rows) + 1))
 		}
-	case w < 70:
+		pan()
+	case w < 66:
 		o.Kind = "sweep"
 		if r.Intn(2) == 0 {
 			ck.now += 400
@@ -943,8 +1650,10 @@ func (h *hist) genOp(r *rand.Rand, ck *clock, search bool) opSpec {
 		if o.Fault >= 0 {
 			o.Fault = r.Intn(len(s.batches) + 1)
 		}
+		pan()
 	case w < 76:
-		o.Kind = "endblock"
+		// the whole end-blocker, with whatever claims and estimates are on the table
+		o.Kind = "fullblock"
 		if r.Intn(2) == 0 {
 			ck.h = (ck.h/50 + 1) * 50
 		}
@@ -952,9 +1661,23 @@ func (h *hist) genOp(r *rand.Rand, ck *clock, search bool) opSpec {
 			ck.now += 500
 		}
 		o.H, o.Now = ck.h, ck.now
-		if o.Fault >= 0 {
-			o.Fault = r.Intn(3*(len(e.table)+1) + len(s.batches))
+		if r.Intn(4) != 0 {
+			o.Evs = h.genEvents(r, s, rows, hostile)
+			o.Ests = h.genEsts(r, s)
+		} else {
+			o.Kind = "endblock"
 		}
+		if o.Fault >= 0 {
+			waiting := len(o.Evs)
+			for _, q := range e.queue {
+				waiting += len(q)
+			}
+			o.Fault = r.Intn(1 + 4*waiting + len(o.Ests) + len(e.pendEst) + len(s.batches))
+			if ck.h%50 == 0 {
+				o.Fault = r.Intn(3*(len(rows)+1) + 4*waiting + len(o.Ests) + len(e.pendEst) + len(s.batches))
+			}
+		}
+		pan()
 	case w < 79:
 		o.Kind = "cancelbatch"
 		o.K, o.Nonce = r.Intn(len(contracts)), uint64(r.Intn(4))
@@ -965,6 +1688,7 @@ func (h *hist) genOp(r *rand.Rand, ck *clock, search bool) opSpec {
 		if o.Fault >= 0 {
 			o.Fault = 0
 		}
+		pan()
 	case w < 83:
 		o.Kind = "setgas"
 		o.K, o.Nonce, o.Est = r.Intn(len(contracts)), uint64(r.Intn(4)), uint64(r.Intn(3))*21000
@@ -975,6 +1699,7 @@ func (h *hist) genOp(r *rand.Rand, ck *clock, search bool) opSpec {
 		if o.Fault >= 0 {
 			o.Fault = 0
 		}
+		pan()
 	case w < 91:
 		o.Kind = "executed"
 		o.C, o.K, o.Nonce, o.Eth = r.Intn(len(chains)), r.Intn(len(contracts)), uint64(r.Intn(4)), uint64(r.Intn(1000))
@@ -991,6 +1716,7 @@ func (h *hist) genOp(r *rand.Rand, ck *clock, search bool) opSpec {
 		if o.Fault >= 0 {
 			o.Fault = 0
 		}
+		pan()
 	default:
 		o.Kind = "deposit"
 		en := pickEntry()
@@ -1008,13 +1734,24 @@ func (h *hist) genOp(r *rand.Rand, ck *clock, search bool) opSpec {
 	return o
 }
 
+func hasRow(rows []entry, c, d int) bool {
+	for _, en := range rows {
+		if en.C == c && en.D == d {
+			return true
+		}
+	}
+	return false
+}
+
 func newHist(t *testing.T, run *emit.Run, cfg config) *hist {
-	h := &hist{e: setup(t, cfg), run: run, cfg: cfg, acc: map[uint64]txo{}, refund: map[uint64]bool{}, burned: map[uint64]bool{}}
+	h := &hist{e: setup(t, cfg), run: run, cfg: cfg, acc: map[uint64]txo{}, accD: map[uint64]int{}, refund: map[uint64]bool{}, burned: map[uint64]bool{}}
+	h.thorough = run.Tier == "thorough"
 	for range denoms {
 		h.dep = append(h.dep, big.NewInt(0))
 		h.exe = append(h.exe, big.NewInt(0))
 	}
 	h.s0 = h.e.snapshot(h.e.root)
+	h.tb0 = h.e.rows(h.e.root)
 	for d := range denoms {
 		if h.s0.escrow[d].Sign() != 0 {
 			t.Fatalf("escrow of %s not empty at start: %s", denoms[d], h.s0.escrow[d])
@@ -1024,23 +1761,34 @@ func newHist(t *testing.T, run *emit.Run, cfg config) *hist {
 }
 
 func (h *hist) finish(tag string) {
-	tb := make([]string, len(h.e.table))
-	for i, en := range h.e.table {
-		tb[i] = emit.Pair(emit.ZI(int64(en.C)), emit.ZI(int64(en.D)), emit.ZI(int64(en.K)))
+	if h.skip {
+		h.run.Count("source", tag+" (not compared: panic faults need the fix)")
+		return
 	}
-	term := fmt.Sprintf("C01.CHist %s %s %s", emit.List(tb), emit.ZList(h.s0.bals), emit.List(h.steps))
+	tb := make([]string, len(h.tb0))
+	for i, en := range h.tb0 {
+		tb[i] = emit.Pair(emit.ZI(int64(chainRank[en.C])), emit.ZI(int64(denomRank[en.D])), emit.ZI(int64(en.K)))
+	}
+	term := fmt.Sprintf("C01.CHistP %s %s %s", emit.List(tb), emit.ZList(balsByRank(h.s0.bals)), emit.List(h.steps))
 	nontrivial := h.okN > 0 && h.errN > 0
+	if dir := os.Getenv("C01_TRACE_DIR"); dir != "" { // debugging aid: one trace file per case
+		var b strings.Builder
+		fmt.Fprintf(&b, "%s\nconfig %+v\n", tag, h.cfg)
+		for i, l := range h.human {
+			fmt.Fprintf(&b, "%d: %s\n    %s\n", i, l, h.steps[i])
+		}
+		_ = os.WriteFile(filepath.Join(dir, fmt.Sprintf("case_%03d.txt", h.run.NCases())), []byte(b.String()), 0o644)
+	}
 	h.run.Case(term, nontrivial, map[string]any{"source": tag, "config": h.cfg, "trace": h.human})
 	h.run.Count("history-length", fmt.Sprint(len(h.steps)/5*5))
-	h.run.Count("table-size", fmt.Sprint(len(h.e.table)))
-	if h.faultN > 0 {
-		h.run.Count("history-with-fault", "yes")
-	} else {
-		h.run.Count("history-with-fault", "no")
-	}
+	h.run.Count("table-size", fmt.Sprint(len(h.tb0)))
+	h.run.Count("history-with-fault", fmt.Sprint(h.faultN > 0))
+	h.run.Count("history-with-panic", fmt.Sprint(h.panics))
+	h.run.Count("history-with-probes", fmt.Sprint(h.probeN > 0))
 	shared := false
-	for i, a := range h.e.table {
-		for _, b := range h.e.table[i+1:] {
+	rows := h.e.rows(h.e.root)
+	for i, a := range rows {
+		for _, b := range rows[i+1:] {
 			if a.K == b.K && a.C != b.C {
 				shared = true
 			}
@@ -1055,10 +1803,38 @@ type corpusFile struct {
 	Ops    []opSpec `json:"ops"`
 }
 
+// panicSafe: does the tree drop a half-done batch change when a collaborator panics?  (after "fix:
+// do not commit a half-done batch change when a collaborator panics").  Probed on the real keeper.
+var panicSafe bool
+
+func probePanicSafe(t *testing.T, run *emit.Run) {
+	cfg := config{Taxes: []string{"", "", ""}, Funds: []string{"1000", "0", "0", "0", "0", "0", "0", "0", "0"}}
+	h := newHist(t, run, cfg)
+	e := h.e
+	o := opSpec{Kind: "send", U: 0, C: 0, D: 0, Amt: "100", Fault: -1}
+	if r := h.apply(e.root, o, h.prepare(&o)); r.err != nil {
+		t.Fatalf("probe send: %v", r.err)
+	}
+	before := e.snapshot(e.root)
+	b, _ := e.root.CacheContext()
+	h.apply(b, opSpec{Kind: "build", C: 0, K: 0, Max: 100, Now: 10, Fault: 1, Panic: true}, prep{})
+	after := e.snapshot(b)
+	panicSafe = before.equal(after)
+	if !panicSafe {
+		h.human = []string{"send 100ugrain; BuildOutgoingTXBatch with PickValidatorForMessage panicking (recovered by the caller, as EndBlocker does)",
+			fmt.Sprintf("pool before %d transfers, after %d; batches after %d; escrow still %s", len(before.pool), len(after.pool), len(after.batches), after.escrow[0])}
+		h.ops = []opSpec{o, {Kind: "build", C: 0, K: 0, Max: 100, Now: 10, Fault: 1, Panic: true}}
+		h.violate("C01:panic-commits-half-done-batch-change", "a collaborator panic inside BuildOutgoingTXBatch (deferred commit sees err == nil) commits the pool removal without a batch: transfers in no pool and no batch, coins locked")
+	}
+	run.Extra("panic_safe_commit", panicSafe)
+}
+
 func TestCorr(t *testing.T) {
 	run := emit.Start("C01", 300)
-	run.Rule("one case = one history (4-28 ops) on a fresh 5-validator skyway environment with two EVM chains, a random denom<->(chain,contract) table (incl. one contract address registered on both chains), random tax rates and balances; ops: send / cancel (messages, tx-wrapped), governance SetBridgeTax (new rate / exemption list while transfers are pending), BuildOutgoingTXBatch, createBatch, cleanupTimedOutBatches, EndBlocker, UpdateBatchGasEstimate, executed-batch and deposit attestations; 35% of ops carry a fault at the k-th collaborator call (bank / EVM keeper proxies), 15% are hostile (unmapped, zero, over balance, wrong sender, unknown id, wrong chain, timed out, blocked / invalid receiver, max=0); non-trivial = at least one successful and one failed operation")
+	run.Rule("one case = one history (4-28 ops) on a fresh 5-validator skyway environment with two active EVM chains, a random denom<->(chain,contract) table (incl. one contract address registered on both chains), random tax rates, transfer limits and balances; ops: send / cancel (messages, tx-wrapped; the transfer-limit decision is read off a discarded run of the check), governance SetBridgeTax / SetBridgeTransferLimit / SetERC20ToDenom (new pair, denom re-mapped to a fresh contract, second chain registering a used contract address — all inside the guard), token-admin SetERC20ToTokenDenom (incl. refused: contract bound, not admin, not a factory denom), BuildOutgoingTXBatch, createBatch, cleanupTimedOutBatches, the whole EndBlocker with claims voted by all validators and gas estimates waiting (tally -> processAttestation, processGasEstimates, sweep), UpdateBatchGasEstimate, executed-batch and deposit attestations; 35% of ops carry a fault at the k-th collaborator call (bank / EVM keeper proxies), a third of those as a PANIC; 15% are hostile; probes: for sampled ops (thorough: every op) the op is also run from the same pre-state on discarded branches without fault and with every fault point as error and as panic; one long history per run pools 101-130 transfers of one token (batches at the 100 cap, several open batches, fill order); non-trivial = at least one successful and one failed operation")
 	search := os.Getenv("VERIF_SEARCH") == "1"
+	thorough := run.Tier == "thorough"
+	probePanicSafe(t, run)
 	// corpus first
 	files, _ := filepath.Glob("../corpus/C01/*.json")
 	sort.Strings(files)
@@ -1073,13 +1849,19 @@ func TestCorr(t *testing.T) {
 		}
 		h := newHist(t, run, cf.Config)
 		for _, o := range cf.Ops {
-			h.exec(o)
+			h.exec(o, false, false)
 		}
 		h.finish("corpus:" + filepath.Base(f))
 		run.Count("source", "corpus")
 	}
+	nBig := 0
 	for run.NCases() < run.N {
 		r := run.Rng
+		if (nBig == 0 && run.NCases() >= 20) || (thorough && run.NCases()%150 == 149) {
+			nBig++
+			bigHistory(t, run, r)
+			continue
+		}
 		cfg := genConfig(r)
 		h := newHist(t, run, cfg)
 		n := 4 + r.Intn(25)
@@ -1088,7 +1870,9 @@ func TestCorr(t *testing.T) {
 		}
 		ck := &clock{h: h.e.root.BlockHeight(), now: 0}
 		for i := 0; i < n; i++ {
-			h.exec(h.genOp(r, ck, search))
+			o := h.genOp(r, ck, search)
+			probe := thorough || r.Intn(100) < 12 || ((o.Kind == "fullblock" || o.Kind == "endblock") && r.Intn(100) < 40)
+			h.exec(o, probe, thorough)
 		}
 		h.finish("generated")
 		run.Count("source", "generated")
@@ -1096,4 +1880,49 @@ func TestCorr(t *testing.T) {
 	if err := run.Finish("Skyway.Bridge Corr.C01", "C01.case", "C01.check"); err != nil {
 		t.Fatal(err)
 	}
+}
+
+// bigHistory: more than 100 transfers of one token in the pool (amounts with many ties), so that
+// the end-blocker's build stops at OutgoingTxBatchSize, a second batch of the same token is opened
+// next to it, and the fill order (descending amount, then id) is compared transfer by transfer.
+func bigHistory(t *testing.T, run *emit.Run, r *rand.Rand) {
+	cfg := config{Table: []entry{{1, 2, 0}}, Taxes: []string{taxRates[r.Intn(len(taxRates))], "", ""}, Limits: []string{"", "", ""}}
+	for i := 0; i < nUsers*len(denoms); i++ {
+		cfg.Funds = append(cfg.Funds, "100000")
+	}
+	h := newHist(t, run, cfg)
+	ck := &clock{h: h.e.root.BlockHeight(), now: 0}
+	n := 101 + r.Intn(25) // transfers towards test-chain: more than one batch holds
+	for i, main := 0, 0; main < n; i++ {
+		o := opSpec{Kind: "send", U: r.Intn(nUsers), C: 0, D: 0, Amt: fmt.Sprint(1 + r.Intn(12)), Fault: -1, Quiet: i%40 != 39}
+		if r.Intn(12) == 0 {
+			o.C, o.D = 1, 2 // the same contract address on the other chain
+		} else {
+			main++
+		}
+		h.exec(o, false, false)
+	}
+	block := func(kind string, faultAt int, pan bool, jump int64) {
+		ck.h = (ck.h/50 + 1) * 50
+		ck.now += 30 + jump
+		h.exec(opSpec{Kind: kind, H: ck.h, Now: ck.now, Fault: faultAt, Panic: pan && panicSafe}, false, false)
+	}
+	block("createbatch", 1+r.Intn(2), false, 0) // first build fails: nothing moves
+	block("endblock", -1, false, 0)             // batch of exactly 100 + the other chain's batch
+	for i := 0; i < 3; i++ {
+		h.exec(opSpec{Kind: "send", U: r.Intn(nUsers), C: 0, D: 0, Amt: fmt.Sprint(1 + r.Intn(12)), Fault: -1, Quiet: true}, false, false)
+	}
+	block("fullblock", 1, true, 0)     // relayer selection panics in the second build of the block
+	block("createbatch", -1, false, 0) // second (and maybe third) open batch of the token
+	s := h.e.snapshot(h.e.root)
+	if len(s.batches) > 0 {
+		b := s.batches[len(s.batches)-1]
+		h.exec(opSpec{Kind: "fullblock", H: ck.h + 7, Now: ck.now + 5, Fault: -1,
+			Evs:  []evSpec{{Kind: "exe", C: b.chain, K: b.contract, Nonce: b.nonce, Eth: 5}},
+			Ests: []estSpec{{K: s.batches[0].contract, Nonce: s.batches[0].nonce, Est: 42000}}}, false, false)
+	}
+	block("endblock", -1, false, 700) // everything left times out: back to the pool in order
+	block("endblock", -1, false, 0)   // and is batched again
+	h.finish("generated-long")
+	run.Count("source", "generated-long")
 }
